@@ -94,9 +94,7 @@ ITEMS = location_types() + budget_types() + error_types() + [
     dict(src=L, path='impl LiveEvents/fn bump_depth_on_end', props=['C02', 'C08', 'C01'],
          loop_rewrites=[(1, 'iter_mut')],
          rewrites=[(r'done\.buf\.into_vec\(\)\.into_boxed_slice\(\)', 'vec_into_boxed(done.buf)', None, 'R8')],
-         requires=[('anchor_ids_small_and_distinct', '''forall|a: int, b: int| 0 <= a < old(self).rec_stack@.len() && 0 <= b < old(self).rec_stack@.len() ==>
-                 (#[trigger] old(self).rec_stack@[a]).id <= usize::MAX - 8
-                 && (a != b ==> old(self).rec_stack@[a].id != (#[trigger] old(self).rec_stack@[b]).id)''')],
+         requires=[('anchor_ids_small', 'forall|a: int| 0 <= a < old(self).rec_stack@.len() ==> (#[trigger] old(self).rec_stack@[a]).id <= usize::MAX - 8')],
          proofs=[dict(at='start', ghost=True, text='let ghost d0 = self.rec_stack@; let ghost a0 = self.anchors@;'),
                  dict(at='start', text='lemma_open_after_end(d0);'),
                  dict(after='fr.depth -= 1;', text='assert(d0[__i1 - 1].depth >= 1);'),
@@ -107,10 +105,11 @@ ITEMS = location_types() + budget_types() + error_types() + [
                 Ok(()) => ({
                     let d = old(self).rec_stack@; let n = d.len() as int; let k = open_after_end(d);
                     &&& forall|j: int| 0 <= j < n ==> (#[trigger] d[j]).depth >= 1
+                    &&& 0 <= k <= n
                     &&& final(self).rec_stack@.len() == k
                     &&& forall|j: int| 0 <= j < k ==> { let g = #[trigger] final(self).rec_stack@[j];
                             g.id == d[j].id && g.buf == d[j].buf && g.depth == d[j].depth - 1 }
-                    &&& forall|j: int| k <= j < n ==> (#[trigger] d[j]).id < final(self).anchors@.len()
+                    &&& ids_distinct(d) ==> forall|j: int| k <= j < n ==> (#[trigger] d[j]).id < final(self).anchors@.len()
                             && final(self).anchors@[d[j].id as int] is Some
                             && final(self).anchors@[d[j].id as int].unwrap()@ == d[j].buf@
                 }),
@@ -139,15 +138,14 @@ ITEMS = location_types() + budget_types() + error_types() + [
              2: dict(invariant=[
                     ('bounds', 'd0 == old(self).rec_stack@ && a0 == old(self).anchors@ && 0 <= open_after_end(d0) <= self.rec_stack@.len() <= d0.len()'),
                     ('frame', 'self.same_but_rec_and_anchors(old(self))'),
-                    ('ids', '''forall|a: int, b: int| 0 <= a < d0.len() && 0 <= b < d0.len() ==>
-                            (#[trigger] d0[a]).id <= usize::MAX - 8 && (a != b ==> d0[a].id != (#[trigger] d0[b]).id)'''),
+                    ('ids', 'forall|a: int| 0 <= a < d0.len() ==> (#[trigger] d0[a]).id <= usize::MAX - 8'),
                     ('depths', '''(forall|j: int| 0 <= j < d0.len() ==> (#[trigger] d0[j]).depth >= 1)
                             && (forall|j: int| open_after_end(d0) <= j < d0.len() ==> (#[trigger] d0[j]).depth == 1)
                             && (open_after_end(d0) > 0 ==> d0[open_after_end(d0) - 1].depth != 1)'''),
                     ('remaining_decremented', '''forall|j: int| 0 <= j < self.rec_stack@.len() ==> (#[trigger] self.rec_stack@[j]).id == d0[j].id
                             && self.rec_stack@[j].buf == d0[j].buf && self.rec_stack@[j].depth == d0[j].depth - 1'''),
                     ('stored', '''self.anchors@.len() >= a0.len()
-                            && (forall|j: int| self.rec_stack@.len() <= j < d0.len() ==> (#[trigger] d0[j]).id < self.anchors@.len()
+                            && (ids_distinct(d0) ==> forall|j: int| self.rec_stack@.len() <= j < d0.len() ==> (#[trigger] d0[j]).id < self.anchors@.len()
                                 && self.anchors@[d0[j].id as int] is Some && self.anchors@[d0[j].id as int].unwrap()@ == d0[j].buf@)'''),
                     ('others_untouched', '''forall|i: int| 0 <= i < self.anchors@.len()
                                 && (forall|j: int| self.rec_stack@.len() <= j < d0.len() ==> (#[trigger] d0[j]).id != i) ==>
@@ -209,7 +207,8 @@ ITEMS = location_types() + budget_types() + error_types() + [
                 Ok(Some(e)) => old(self).pump_future().len() > 0 && e == old(self).pump_future()[0]
                                && final(self).pump_future() == old(self).pump_future().skip(1) && final(self).last_location == e.spec_location(),
                 Ok(None) => old(self).pump_future().len() == 0 && final(self).pump_future() == old(self).pump_future(),
-                Err(_) => true }''')]),
+                Err(_) => true }'''),
+                  ('invariant_preserved', 'old(self).live_inv() && old(self).live_room() && r is Ok ==> final(self).live_inv()')]),
     dict(src=L, path='impl Events for LiveEvents', props=['C10', 'C09', 'C16', 'C01'],
          trait_extra='''
     spec fn rest(&self) -> Seq<Ev<'de>> {
@@ -259,12 +258,18 @@ ITEMS = location_types() + budget_types() + error_types() + [
                     Ok(()) => final(self).budget is Some && !(*ev is Taken) && exists|raw: Event<'_>| replay_charge_matches(*ev, raw)
                                 && #[trigger] accepted(b.abs(), raw, b.budget, b.per_doc())
                                 && final(self).budget.unwrap().abs() =~~= abs_step(b.abs(), raw, b.per_doc())
-                                && final(self).budget.unwrap().inv(),
+                                && final(self).budget.unwrap().inv()
+                                && final(self).budget.unwrap().budget == b.budget && final(self).budget.unwrap().policy == b.policy
+                                && within(final(self).budget.unwrap().abs(), b.budget, b.per_doc())
+                                && final(self).budget.unwrap().report.documents == b.report.documents,
                     Err(e) => true } }'''),
              ('frame', '''final(self).rec_stack == old(self).rec_stack && final(self).anchors == old(self).anchors
                 && final(self).inject == old(self).inject && final(self).look == old(self).look && final(self).parser == old(self).parser
                 && final(self).total_replayed_events == old(self).total_replayed_events
-                && final(self).per_anchor_expansions == old(self).per_anchor_expansions'''),
+                && final(self).per_anchor_expansions == old(self).per_anchor_expansions
+                && final(self).alias_limits == old(self).alias_limits && final(self).error == old(self).error
+                && final(self).last_location == old(self).last_location && final(self).stop_at_doc_end == old(self).stop_at_doc_end
+                && final(self).seen_doc_end == old(self).seen_doc_end && final(self).produced_any_in_doc == old(self).produced_any_in_doc'''),
          ],
          canaries=['C07:replayed_event_is_charged_once']),
     dict(src=L, path='impl LiveEvents/fn finish', props=['C10', 'C07', 'C01'],
@@ -319,4 +324,85 @@ ITEMS = location_types() + budget_types() + error_types() + [
                         ensures=[('parser_exhausted', 'self.parser.pending().len() == 0')],
                         decreases='self.parser.pending().len()')},
          canaries=['C11:stops_right_after_the_next_document_start', 'C11:new_document_starts_clean']),
+    # the body of the event pump, verified under its own name; callers (and its own recursive call)
+    # see the assumed prophecy contract of `next_impl` above
+    dict(src=L, path='impl LiveEvents/fn next_impl', id='LiveEvents::next_impl#body', rename='next_impl__body',
+         props=['C02', 'C08', 'C11', 'C07', 'C01'], attrs='#[verifier::rlimit(80)]',
+         rewrites=[
+             (r'self\s*\.anchors\s*\.get\(anchor_id\)\s*\.and_then\(\|o\| o\.as_ref\(\)\)', '(match self.anchors.get(anchor_id) { Some(o) => o.as_ref(), None => None })', None, 'R18'),
+             (r'\.ok_or_else\(\|\| Error::unknown_anchor\(\)\.with_location\(self\.last_location\)\)\?', '.ok_or(Error::unknown_anchor().with_location(self.last_location))?', None, 'R18'),
+             (r'\.ok_or\(Error::AliasReplayCounterOverflow \{\s*location: Location::UNKNOWN,\s*\}\)\s*\.map_err\(\|err\| err\.with_location\(ev\.location\(\)\)\)\?', '.ok_or(Error::AliasReplayCounterOverflow { location: Location::UNKNOWN }.with_location(ev.location()))?', None, 'R18'),
+             (r'item\.map_err\(Error::from_scan_error\)\?', '(match item { Ok(__v) => __v, Err(__e) => { return Err(error_from_scan_error(__e)); } })', None, 'R18'),
+             (r'!val\.trim\(\)\.is_empty\(\)', '!cowstr_trim_is_empty(&val)', None, 'R8'),
+             (r'SfTag::from_optional_cow\(&tag\)', 'sftag_from_optional_cow(&tag)', None, 'R8'),
+             (r'tag\.as_ref\(\)\.map\(\|t\| Cow::Owned\(t\.to_string\(\)\)\)', 'raw_tag_of(&tag)', None, 'R8'),
+             (r'vec!\[ev\.clone\(\)\]\.into_boxed_slice\(\)', 'vec_into_boxed(vec![ev_clone(&ev)])', None, 'R8'),
+             (r'\bev\.clone\(\)', 'ev_clone(&ev)', None, 'R8'),
+             (r'buf\[\*idx\]\.clone\(\)', 'ev_clone(&buf[*idx])', None, 'R8'),
+             (r'let mut buf: SmallVec<\[Ev; SMALLVECT_INLINE\]> = SmallVec::new\(\);', 'let mut buf: Vec<Ev> = Vec::new();', None, 'R6'),
+             (r'self\.per_anchor_expansions\.resize\(anchor_id \+ 1, 0\)', 'vec_resize_zero(&mut self.per_anchor_expansions, anchor_id + 1)', None, 'R8'),
+             (r'self\.rec_stack\.iter\(\)\.any\(\|frame\| frame\.id == anchor_id\)', 'any_frame_id(&self.rec_stack, anchor_id)', None, 'R8'),
+             (r'crate::anchor_store::recursive_anchor_in_progress\(anchor_id\)', 'recursive_anchor_in_progress(anchor_id)', None, 'R8'),
+             (r'String::new\(\)\.into\(\)', 'cowstr_empty()', None, 'R8'),
+             (r'Error::multiple_documents\(\s*"use from_multiple or from_multiple_with_options",\s*\)', 'error_multiple_documents("use from_multiple or from_multiple_with_options")', None, 'R8'),
+             (r'self\.bump_depth_on_end\(\)\s*\.map_err\(\|err\| err\.with_location\(location\)\)\?;',
+              'match self.bump_depth_on_end() { Ok(__v) => __v, Err(err) => { return Err(err.with_location(location)); } };', None, 'R18'),
+         ],
+         requires=[('pump_invariant', 'old(self).live_inv()'), ('history_below_2_64', 'old(self).live_room()')],
+         proofs=[
+             # replay loop
+             dict(before='let Some(frame) = self.inject.last_mut() else {', ghost=True, text='let ghost f1 = self.rec_stack@;'),
+             dict(before='let Some(frame) = self.inject.last_mut() else {', text='if self.budget is Some { lemma_budget_room(self.budget.unwrap()); }'),
+             dict(before='self.last_location = ev.location();', nth=1, text='''
+                 assert forall|a: int, b: int| 0 <= a <= b < self.rec_stack@.len() implies
+                     (#[trigger] self.rec_stack@[a]).depth >= (#[trigger] self.rec_stack@[b]).depth by { assert(f1[a].depth >= f1[b].depth); }
+                 lemma_frames_all_pushed(f1, self.rec_stack@, ev);'''),
+             # parser loop
+             dict(after='let location = location_from_span(&span);', ghost=True, text='let ghost f0 = self.rec_stack@;'),
+             dict(after='let location = location_from_span(&span);', text='if self.budget is Some { lemma_budget_room(self.budget.unwrap()); }'),
+             dict(after='}, _ => {} } }, _ => {} } }', label='budget_after_observe', text='''
+                 if self.budget is Some { let b = self.budget.unwrap(); assert(within(b.abs(), b.budget, b.per_doc())); assert(budget_ok(b)); }'''),
+             # scalar arm
+             dict(before='self.last_location = location;', nth=1, text='''
+                 assert forall|a: int, b: int| 0 <= a <= b < self.rec_stack@.len() implies
+                     (#[trigger] self.rec_stack@[a]).depth >= (#[trigger] self.rec_stack@[b]).depth by { assert(f0[a].depth >= f0[b].depth); }
+                 lemma_frames_all_pushed(f0, self.rec_stack@, ev);'''),
+             # sequence / mapping start arms
+             dict(before='self.last_location = location;', nth=2, text='''
+                 if anchor_id != 0 { lemma_frames_with_new(f0, self.rec_stack@, ev); } else {
+                     assert forall|a: int, b: int| 0 <= a <= b < self.rec_stack@.len() implies
+                         (#[trigger] self.rec_stack@[a]).depth >= (#[trigger] self.rec_stack@[b]).depth by { assert(f0[a].depth >= f0[b].depth); }
+                     lemma_frames_all_pushed(f0, self.rec_stack@, ev); }'''),
+             dict(before='self.last_location = location;', nth=4, text='''
+                 if anchor_id != 0 { lemma_frames_with_new(f0, self.rec_stack@, ev); } else {
+                     assert forall|a: int, b: int| 0 <= a <= b < self.rec_stack@.len() implies
+                         (#[trigger] self.rec_stack@[a]).depth >= (#[trigger] self.rec_stack@[b]).depth by { assert(f0[a].depth >= f0[b].depth); }
+                     lemma_frames_all_pushed(f0, self.rec_stack@, ev); }'''),
+             # sequence / mapping end arms
+             dict(after='self.record(&ev, false, false);', nth=2, ghost=True, text='let ghost f2 = self.rec_stack@;'),
+             dict(after='self.record(&ev, false, false);', nth=2, text='''
+                 assert forall|a: int, b: int| 0 <= a <= b < f2.len() implies (#[trigger] f2[a]).depth >= (#[trigger] f2[b]).depth by { assert(f0[a].depth >= f0[b].depth); }
+                 lemma_frames_all_pushed(f0, f2, ev);'''),
+             dict(before='self.last_location = location;', nth=3, text='lemma_frames_remaining(f2, self.rec_stack@);'),
+             dict(after='self.record(&ev, false, false);', nth=3, ghost=True, text='let ghost f2 = self.rec_stack@;'),
+             dict(after='self.record(&ev, false, false);', nth=3, text='''
+                 assert forall|a: int, b: int| 0 <= a <= b < f2.len() implies (#[trigger] f2[a]).depth >= (#[trigger] f2[b]).depth by { assert(f0[a].depth >= f0[b].depth); }
+                 lemma_frames_all_pushed(f0, f2, ev);'''),
+             dict(before='self.last_location = location;', nth=5, text='lemma_frames_remaining(f2, self.rec_stack@);'),
+             # alias arm: placeholder scalar for a recursive anchor in progress
+             dict(before='self.last_location = location;', nth=6, text='''
+                 assert forall|a: int, b: int| 0 <= a <= b < self.rec_stack@.len() implies
+                     (#[trigger] self.rec_stack@[a]).depth >= (#[trigger] self.rec_stack@[b]).depth by { assert(f0[a].depth >= f0[b].depth); }
+                 lemma_frames_all_pushed(f0, self.rec_stack@, ev);'''),
+         ],
+         ensures=[('lookahead_untouched', 'final(self).look == old(self).look'),
+                  ('C02:pump_invariant_preserved', 'r is Ok ==> final(self).live_inv()')],
+         loops={
+             1: dict(invariant=[('inv', 'self.live_inv() && self.live_room() && self.look == old(self).look')],
+                     ensures=[('replay_exhausted', 'self.inject@.len() == 0')],
+                     decreases='self.inject@.len()'),
+             2: dict(invariant=[('inv', 'self.live_inv() && self.live_room() && self.look == old(self).look && self.inject@.len() == 0')],
+                     decreases='self.parser.pending().len()'),
+         },
+         ),
 ]
